@@ -7,6 +7,7 @@
        or  DIFF <id> <line-index> | <case line> | model=<..> | impl=<..>
    and a final  SUMMARY cases=<n> ok=<n> diff=<n> lines=<n>                         *)
 open Model
+type string = Stdlib.String.t   (* Model exports Coq's string type under the same name *)
 
 let rec nat_of_int n = if n <= 0 then O else S (nat_of_int (n - 1))
 let rec int_of_nat = function O -> 0 | S n -> 1 + int_of_nat n
@@ -189,10 +190,101 @@ let run_case ~dump (c : case) (impl : string array) : (int * string * string * s
   done;
   (!result, n)
 
+
+(* ------------------------------------------------------------------------------------------
+   white-box mode (--wb): the literal (L3) Coq machines against the real internal structures
+   dumped by harness/wb.cpp after every operation *)
+let rec coq_string = function
+  | EmptyString -> ""
+  | String (Ascii (b0, b1, b2, b3, b4, b5, b6, b7), r) ->
+    let bit b i = if b then 1 lsl i else 0 in
+    let c = bit b0 0 + bit b1 1 + bit b2 2 + bit b3 3 + bit b4 4 + bit b5 5 + bit b6 6 + bit b7 7 in
+    String.make 1 (Char.chr c) ^ coq_string r
+
+let nats l = String.concat "," (List.map (fun n -> string_of_int (int_of_nat n)) l)
+let zi z = string_of_int (int_of_z z)
+let sorted_index ix = List.sort compare (List.map (fun (k, n) -> (int_of_z k, int_of_nat n)) ix)
+let nth_opt l n = try Some (List.nth l n) with _ -> None
+let okey = function Some k -> zi k | None -> "?"
+let oval = function Some v -> zi v | None -> "?"
+
+type lstate = LRr of (z, z) rrl | LLru of bool * (z, z) lrul | LFifo of (z, z) fifol
+
+let dump_l = function
+  | LRr s ->
+    let ix = sorted_index s.l_index in
+    "W end=" ^ string_of_int (int_of_nat s.l_end) ^ " open=" ^ nats s.l_open
+    ^ " index=" ^ String.concat "," (List.map (fun (k, n) -> Printf.sprintf "%d:%d" k n) ix)
+    ^ " elems=" ^ String.concat "," (List.map (fun (_, n) ->
+        match nth_opt s.l_elems n with
+        | Some e -> Printf.sprintf "%d:%s:%d:%s" n (okey e.e_keyed) (int_of_nat e.e_pos) (oval e.e_val)
+        | None -> Printf.sprintf "%d:out-of-range" n) ix)
+  | LLru (_, s) ->
+    let ix = sorted_index s.ll_index in
+    let it = function It n -> string_of_int (int_of_nat n) | End -> "E" in
+    "W used=" ^ string_of_int (int_of_nat s.ll_used) ^ " list=" ^ nats s.ll_list ^ " end=" ^ it s.ll_end
+    ^ " index=" ^ String.concat "," (List.map (fun (k, n) -> Printf.sprintf "%d:%d" k n) ix)
+    ^ " elems=" ^ String.concat "," (List.map (fun (_, n) ->
+        match nth_opt s.ll_elems n with
+        | Some e -> Printf.sprintf "%d:%s:%s:%s" n (okey e.le_keyed)
+                      (match e.le_pos with Some i -> it i | None -> "?") (oval e.le_val)
+        | None -> Printf.sprintf "%d:out-of-range" n) ix)
+  | LFifo s ->
+    let ix = sorted_index s.fl_index in
+    "W used=" ^ string_of_int (int_of_nat s.fl_used) ^ " list=" ^ nats s.fl_list
+    ^ " index=" ^ String.concat "," (List.map (fun (k, n) -> Printf.sprintf "%d:%d" k n) ix)
+    ^ " cells=" ^ String.concat "," (List.concat_map (fun n ->
+        match nth_opt s.fl_cells (int_of_nat n) with
+        | Some { fc_keyed = Some k; fc_val = v } -> [Printf.sprintf "%d:%s:%s" (int_of_nat n) (zi k) (oval v)]
+        | _ -> []) s.fl_list)
+
+let l_init kind cap = match kind with
+  | 3 -> LRr (zl_rr_init (nat_of_int cap))
+  | 0 -> LLru (false, zl_lru_init (nat_of_int cap))
+  | 1 -> LLru (true, zl_lru_init (nat_of_int cap))
+  | 2 -> LFifo (zl_fifo_init (nat_of_int cap))
+  | _ -> failwith "no literal machine for this kind"
+
+let l_step st o now rnd = match st with
+  | LRr s -> (match zl_rr_step s o now rnd with Ok (s', r) -> Ok (LRr s', r) | UB w -> UB w)
+  | LLru (m, s) -> (match zl_lru_step m s o now rnd with Ok (s', r) -> Ok (LLru (m, s'), r) | UB w -> UB w)
+  | LFifo s -> (match zl_fifo_step s o now rnd with Ok (s', r) -> Ok (LFifo s', r) | UB w -> UB w)
+
+(* impl: for every op two lines (result, W dump); probes produce nothing *)
+let run_case_wb (c : case) (impl : string array) : (int * string * string * string) option * int =
+  let ops = List.filter_map (function LOp (now, o, raw) -> Some (now, o, raw) | LProbe _ -> None) c.lines in
+  let get i = if i < Array.length impl then impl.(i) else "<missing>" in
+  let st = ref (l_init c.kind c.cap) in
+  let res = ref None in
+  let i = ref 0 in
+  List.iter (fun (now, o, raw) ->
+      if !res = None then begin
+        let znow = z_of_int now in
+        let cands = if c.kind = 3 && n_elems o > 0 then draws (max c.cap 1) (min (n_elems o) 4) else [[]] in
+        let first = ref None and ok = ref None in
+        List.iter (fun d ->
+            if !ok = None then
+              match l_step !st o znow (List.map nat_of_int d) with
+              | Ok (st', r) ->
+                let m = fmt_ret r and w = dump_l st' in
+                if !first = None then first := Some (m, w);
+                if m = get (2 * !i) && w = get (2 * !i + 1) then ok := Some st'
+              | UB why -> if !first = None then first := Some ("UB: " ^ coq_string why, "")) cands;
+        (match !ok, !first with
+         | Some st', _ -> st := st'
+         | None, Some (m, w) ->
+           if m <> get (2 * !i) then res := Some (2 * !i, raw, m, get (2 * !i))
+           else res := Some (2 * !i + 1, raw ^ " ; internal state", w, get (2 * !i + 1))
+         | None, None -> failwith "no candidates");
+        incr i
+      end) ops;
+  (!res, 2 * List.length ops)
+
 let () =
   let args = Array.to_list Sys.argv in
   let dump = List.mem "--dump" args in
-  match List.filter (fun a -> a <> "--dump") (List.tl args) with
+  let wbm = List.mem "--wb" args in
+  match List.filter (fun a -> a <> "--dump" && a <> "--wb") (List.tl args) with
   | [casefile; implfile] ->
     let cases = parse_cases casefile in
     let impl = read_lines implfile in
@@ -212,12 +304,12 @@ let () =
     List.iter (fun c ->
         let im = match Hashtbl.find_opt tbl c.id with Some a -> a | None -> [||] in
         if dump then Printf.printf "case %s\n" c.id;
-        let (res, n) = run_case ~dump c im in
+        let (res, n) = if wbm then run_case_wb c im else run_case ~dump c im in
         nlines := !nlines + n;
         (* the trailing "end live<k>" line: every value ended with the container *)
         let endl = if Array.length im > n then im.(n) else "<missing>" in
         match res with
-        | None when endl = "end live0" -> incr nok; Printf.printf "OK %s %d\n" c.id n
+        | None when endl = "end live0" || (wbm && endl = "end") -> incr nok; Printf.printf "OK %s %d\n" c.id n
         | None -> incr ndiff; Printf.printf "DIFF %s %d | end | model=end live0 | impl=%s\n" c.id n endl
         | Some (i, raw, m, g) -> incr ndiff;
           Printf.printf "DIFF %s %d | %s | model=%s | impl=%s\n" c.id i raw m g) cases;
